@@ -277,7 +277,7 @@ def run_trial(b, c, trial):
             problems.append('step %d: %s %s: %s, %r -> %r' % (si, kind, nm, reply, before_names, after_names))
         if kind == 'reload' and reply != 'success' and sorted(after_names) != sorted(before_names):
             msg = 'step %d: failed reload %s (%s, fault %s) lost a plugin: %r -> %r' % (si, nm, reply, fault or 'cycle', before_names, after_names)
-            if fault in ('other', 'ctor', 'die') or reply == 'exception':
+            if fault in ('other', 'ctor') or reply == 'exception':
                 findings.add(F_RELOAD); tags.add('finding:reload-loses')
                 problems.append(msg + ' [known class: reload after the old instance was removed]')
             else:
@@ -316,7 +316,17 @@ def load_corpus():
         return []
 
 def explore(ctx, n, stream='c20', maxops=10, corpus=()):
-    b, c = get_bot()
+    try:
+        b, c = get_bot()
+    except Exception as e:
+        # the bundled core plugins themselves cannot be registered (e.g. Owner-before-all / Misc-after-all rejected)
+        import traceback
+        case = Case({'op': 'bootstrap', 'plugins': list(BASE)}, impl='bootstrap-failed', model='ok', oracle_ok=False,
+                    oracle_msg='loading %s into a fresh Irc raised %s: %s' % (list(BASE), type(e).__name__, str(e)[:300]),
+                    tags=('bootstrap',), kind='bootstrap')
+        explore.probed = [[None]]
+        explore.bootstrap_failed = True
+        return [case], [], [(0, 0)]
     r = rng.make(stream)
     cases = []; all_lines = []; spans = []; case_probed = []
     trials = [(t, 'corpus') for t in corpus] + [(gen_trial(r, maxops), 'gen') for _ in range(n)]
@@ -334,6 +344,8 @@ def explore(ctx, n, stream='c20', maxops=10, corpus=()):
     return cases, all_lines, spans
 
 def fill_model(cases, all_lines, spans):
+    if getattr(explore, 'bootstrap_failed', False):
+        return cases
     outs = wire.run_driver(PROPERTY, all_lines)
     for c, (a, n), probed in zip(cases, spans, explore.probed):
         got = []
@@ -347,6 +359,8 @@ def fill_model(cases, all_lines, spans):
     return cases
 
 def finding_status(ctx):
+    if getattr(explore, 'bootstrap_failed', False):
+        return {}
     b, c = get_bot()
     st = {}
     _, _, problems, findings, _, _ = run_trial(b, c, WITNESS_RELOAD)
@@ -380,6 +394,11 @@ def replay(ctx, path):
     print(json.dumps(c, indent=1)[:3000])
     if not c:
         return 0
+    if c['input'].get('op') == 'bootstrap':
+        try:
+            get_bot(); print('implementation now: the core plugins load'); return 0
+        except Exception as e:
+            print('implementation now: loading the core plugins raises %s: %s' % (type(e).__name__, e)); return 1
     b, cfg = get_bot()
     impl, lines, problems, findings, tags, _ = run_trial(b, cfg, c['input'])
     print('implementation now:')
